@@ -80,7 +80,7 @@ func contractName(fn *ssa.Function) string {
 		i := strings.Index(name, "$")
 		return contractName(fn.Parent()) + name[i:]
 	}
-	name := fn.Name()
+	name := strings.ReplaceAll(fn.Name(), "github.com/danthegoodman1/bloomsearch.", "")
 	if recv := fn.Signature.Recv(); recv != nil {
 		t := recv.Type().String()
 		// strip package path
